@@ -177,3 +177,11 @@ func DetKey(label string) *ecdh.PrivateKey {
 	}
 	return k
 }
+
+// SetupFromDH builds a sender context from an arbitrary Diffie-Hellman value dh
+// and an arbitrary enc (what an attacker who can predict the receiver's DH
+// output would compute). Used to forge hellos for degenerate (low-order) enc values.
+func SetupFromDH(dh, enc, pkR []byte, kdf, aead uint16, info []byte) (*Context, error) {
+	shared := extractAndExpand(dh, cat(enc, pkR))
+	return keySchedule(shared, kdf, aead, info)
+}
